@@ -212,7 +212,14 @@ def linkref(hist, kind, stats=None):
     # file-scope declaration must be visible for the use
     if not any(s[2] == 'file' for s in hist):
         raise Invalid('identifier not visible at the use')
-    return dict(defs=defs, nlocal=nlocal, nlocal_thread=nlocal_thread, undef=undef)
+    # the functions whose body uses the entity through a declaration with linkage: each must reference its symbol
+    users, g = {'use'}, 0
+    for k, sc, scope, init, asm in hist:
+        if scope != 'file':
+            g += 1
+            if (k == 'obj' and 'extern' in sc) or (k == 'fun' and 'static' not in sc):
+                users.add('g%d' % g)
+    return dict(defs=defs, nlocal=nlocal, nlocal_thread=nlocal_thread, undef=undef, users=users, symbol=name)
 
 
 # ---------------------------------------------------------------------------
@@ -250,21 +257,25 @@ def observe(il, ident):
             continue
         defs.append((n, 'func', 'global' if f.export else 'local', False))
     refs = set()
+    perfunc = {}
     for f in m.funcs:
+        mine = perfunc.setdefault(_nm(f.name), set())
         for b in f.blocks:
             for ins in b.insts:
                 for v in ins.args + [a for _, a in (ins.callargs or [])]:
                     if v[0] == 'glo':
                         refs.add(v[1])
+                        mine.add(_nm(v[1]))
             if b.jump is not None and b.jump.arg is not None and b.jump.arg[0] == 'glo':
                 refs.add(b.jump.arg[1])
+                mine.add(_nm(b.jump.arg[1]))
     for d in m.data:
         for ty, v in d.items:
             if ty != 'z' and v[0] == 'sym':
                 refs.add(v[1])
     undef = {_nm(r) for r in refs if r not in defined}
     dup = len(defs) != len(set((d[0]) for d in defs))
-    return dict(defs=set(defs), nlocal=nlocal, nlocal_thread=nlocal_thread, undef=undef, dup=dup)
+    return dict(defs=set(defs), nlocal=nlocal, nlocal_thread=nlocal_thread, undef=undef, dup=dup, perfunc=perfunc)
 
 
 def gcc_observe(src, ident):
@@ -305,6 +316,10 @@ def gcc_observe(src, ident):
 
 
 def same(a, b):
+    if 'users' in a and 'perfunc' in b:
+        # every function that uses the entity through a declaration with linkage references the entity's symbol
+        if any(a['symbol'] not in b['perfunc'].get(fn, ()) for fn in a['users']):
+            return False
     return all(a[k] == b[k] for k in ('defs', 'nlocal', 'nlocal_thread', 'undef'))
 
 
@@ -359,6 +374,9 @@ def classify(kind, hist, exp, got):
         return '%s/definitions missing=%s extra=%s' % (kind, sorted(missing), sorted(extra))
     if exp['undef'] != got['undef']:
         return '%s/undefined-references expected=%s got=%s' % (kind, sorted(exp['undef']), sorted(got['undef']))
+    lost = sorted(fn for fn in exp.get('users', ()) if exp['symbol'] not in got.get('perfunc', {}).get(fn, ()))
+    if lost:
+        return '%s/use-does-not-reference-the-symbol/%s' % (kind, '+'.join(sorted({s[1] or 'none' for s in hist if s[2] != 'file'})))
     return '%s/local-statics expected=%d got=%d' % (kind, exp['nlocal'], got['nlocal'])
 
 
